@@ -31,15 +31,21 @@ MRW = [dict(name='CRTP-on_entry', pat='( ( front_end_t * ) ( self ) ) -> on_entr
        dict(name='history-entry', pat='self -> m_history . on_entry ( self , event , visitor ) ;', rep='m_history_on_entry_visit ( self , event ) ;', min=0, max=1),
        dict(name='history-exit', pat='self -> m_history . on_exit ( self ) ;', rep='m_history_on_exit ( self ) ;', min=0, max=1),
        dict(name='visit-active-exit', pat='visit < visit_mode :: active_non_recursive > ( [ self , & event ] $$A $$B ) ;', rep='visit_active_exit ( self , event ) ;', min=0, max=1)]
-def xfm(throwers=()):
+GUARDS = {'event_processing_reset': 'event_processing_reset_dtor'}
+# the scope guard's destructor (RAII): extracted and called where C++ unwinding / scope exit runs it (GUARD rule); absent -> empty body
+GUARD_DTOR = Part(SB, ['struct event_processing_reset'], '~ event_processing_reset ( )', optional=True,
+                  xform=back_xform([], refparams=(), rewrites=[dict(name='REF-member', pat='flag', rep='* flag', min=0)]))
+GUARD_FS = 'static void event_processing_reset_dtor(_Bool* flag){@1}\n'
+def xfm(throwers=(), guards=None):
     return back_xform(['is_composite', 'has_completion_transitions'], refparams=(), members=['m_running', 'm_event_processing', 'm_history', 'm_active_state_ids'],
-                      methods=['preprocess_entry', 'postprocess_entry', 'process_event_pool'], enums=ENUMS, drop=DROP2, rewrites=MRW, throwers=throwers, exc_ret='')
+                      methods=['preprocess_entry', 'postprocess_entry', 'process_event_pool'], enums=ENUMS, drop=DROP2, rewrites=MRW, throwers=throwers, exc_ret='', guards=guards)
 UNITS.append(Unit('backmp11.preprocess_entry', ['C04', 'C02', 'C13'], 'backmp11', Part(SB, [], 'void preprocess_entry ( Event const & event , Fsm & fsm )'),
     'void preprocess_entry(fsm_t* self, event_t event, fsm_t* fsm)', 'cascade_mp11.spec.h', xform=xfm(['front_on_entry']), replay=['queue']))
 UNITS.append(Unit('backmp11.postprocess_entry', ['C04', 'C05', 'C13'], 'backmp11', Part(SB, [], 'void postprocess_entry ( )'),
     'void postprocess_entry(fsm_t* self)', 'cascade_mp11.spec.h', xform=xfm(), replay=['queue']))
-UNITS.append(Unit('backmp11.on_entry', ['C02', 'C04', 'C05', 'C08', 'C12', 'C13'], 'backmp11', Part(SB, [], 'void on_entry ( Event const & event , Fsm & fsm )'),
-    'void machine_on_entry(fsm_t* self, event_t event, fsm_t* fsm)', 'cascade_mp11.spec.h', xform=xfm(['preprocess_entry', 'm_history_on_entry_visit', 'postprocess_entry']), replay=['queue', 'hist', 'exc']))
+UNITS.append(Unit('backmp11.on_entry', ['C02', 'C04', 'C05', 'C08', 'C12', 'C13'], 'backmp11',
+    [Part(SB, [], 'void on_entry ( Event const & event , Fsm & fsm )', xform=xfm(['preprocess_entry', 'm_history_on_entry_visit', 'postprocess_entry'], guards=GUARDS)), GUARD_DTOR],
+    'void machine_on_entry(fsm_t* self, event_t event, fsm_t* fsm)', 'cascade_mp11.spec.h', compose='@0', file_scope=GUARD_FS, replay=['queue', 'hist', 'exc']))
 UNITS.append(Unit('backmp11.on_exit', ['C02', 'C08', 'C07', 'C13'], 'backmp11', Part(SB, [], 'void on_exit ( Event const & event , Fsm & fsm )'),
     'void machine_on_exit(fsm_t* self, event_t event, fsm_t* fsm)', 'cascade_mp11.spec.h', xform=xfm(['visit_active_exit', 'front_on_exit']), replay=['order']))
 UNITS.append(Unit('backmp11.on_state_entry_completed', ['C10', 'C13'], 'backmp11', Part(SB, [], 'void on_state_entry_completed ( uint8_t region_id )'),
@@ -49,10 +55,9 @@ UNITS.append(Unit('backmp11.on_state_entry_completed', ['C10', 'C13'], 'backmp11
         dict(name='CONT-push-front-make', pat='event_pool . events . push_front ( processable_event :: make ( completion_event_occurrence < State > { region_id } ) ) ;', rep='pool_push_front_completion ( self , region_id ) ;', min=1, max=1)]),
     replay=['queue']))
 def gnt(_): return [X.T('g_nt')]
-UNITS.append(Unit('backmp11.on_explicit_entry', ['C09', 'C08', 'C02', 'C04', 'C13'], 'backmp11', Part(SB, [], 'void on_explicit_entry ( Event const & event , Fsm & fsm )'),
-    'void on_explicit_entry(fsm_t* self, event_t event, fsm_t* fsm)', 'cascade_mp11.spec.h',
-    xform=back_xform(['get_state_id', 'get_state'], refparams=(), members=['m_history', 'm_active_state_ids'], methods=['preprocess_entry', 'postprocess_entry'],
-        enums=ENUMS, drop=DROP2, foreach=True, size_of=gnt, throwers=['preprocess_entry', 'visitor_call_state', 'visit_active_entry2', 'postprocess_entry'], exc_ret='',
+UNITS.append(Unit('backmp11.on_explicit_entry', ['C09', 'C08', 'C02', 'C04', 'C12', 'C13'], 'backmp11', [Part(SB, [], 'void on_explicit_entry ( Event const & event , Fsm & fsm )',
+    xform=back_xform(['get_state_id', 'get_state'], refparams=(), members=['m_history', 'm_active_state_ids', 'm_event_processing'], methods=['preprocess_entry', 'postprocess_entry'],
+        enums=ENUMS, drop=DROP2, foreach=True, size_of=gnt, throwers=['preprocess_entry', 'visitor_call_state', 'visit_active_entry2', 'postprocess_entry'], exc_ret='', guards=GUARDS,
         pre_rewrites=[dict(name='TVAR-identities', pat='using state_identities = $*A ;', rep='', min=1, max=1),
                       dict(name='SCONST-all-regions', pat='static constexpr bool all_regions_defined = mp11 :: mp_size < state_identities > :: value == nr_regions ;', rep='const _Bool all_regions_defined = ( g_nt == nr_regions ) ;', min=0, max=1),
                       dict(name='SCONST-all-regions2', pat='static constexpr bool all_regions_defined = mp_size < state_identities > :: value == nr_regions ;', rep='const _Bool all_regions_defined = ( g_nt == nr_regions ) ;', min=0, max=1),
@@ -63,7 +68,8 @@ UNITS.append(Unit('backmp11.on_explicit_entry', ['C09', 'C08', 'C02', 'C04', 'C1
                   dict(name='visitor-object', pat='state_entry_visitor < Event > visitor { self , event } ;', rep='ALL_IDS_SET ( ) ;', min=1, max=1),
                   dict(name='visitor-call', pat='auto & state = self -> get_state ( State ) ; visitor ( state ) ;', rep='visitor_call_state ( self , State ) ;', min=0, max=1),
                   dict(name='visitor-call2', pat='auto & state = get_state ( State ) ; visitor ( state ) ;', rep='visitor_call_state ( self , State ) ;', min=0, max=1),
-                  dict(name='visit-active', pat='visit < visit_mode :: active_non_recursive > ( visitor ) ;', rep='visit_active_entry2 ( self ) ;', min=0, max=1)]),
+                  dict(name='visit-active', pat='visit < visit_mode :: active_non_recursive > ( visitor ) ;', rep='visit_active_entry2 ( self ) ;', min=0, max=1)])), GUARD_DTOR],
+    'void on_explicit_entry(fsm_t* self, event_t event, fsm_t* fsm)', 'cascade_mp11.spec.h', compose='@0', file_scope=GUARD_FS,
     loops={0: '__CPROVER_assigns(state_identity, __CPROVER_object_upto(self->m_active_state_ids, sizeof(self->m_active_state_ids)))\n'
               '__CPROVER_loop_invariant(0 <= state_identity && state_identity <= g_nt)\n'
               '__CPROVER_loop_invariant(g_w < state_identity ==> self->m_active_state_ids[g_zone[g_w]] == g_tid[g_w])\n'
